@@ -32,6 +32,9 @@ Thm_RoundTrip == RoundTrip(m)
 Thm_NormalForm == NormalForm(m)
 Thm_Idempotent == Idempotent(m)
 Thm_NoWrap == NoWrap(m)
+Thm_RoundTripX == RoundTripX(m)
+\* the ECU / session id variants are not vacuous: they fit for every shape except the largest payload classes
+XReached == (m.cls < 1000) => \A we \in BOOLEAN, ws \in BOOLEAN : FitsX(ParseView(m), we, ws)
 \* the domain reaches the places the theorems are about: the class "max" fills the 16 bit len field for every shape
 MaxReached == (m.cls = 1000) => Size(m) = StorageHdr + (U16 - 1)
 
